@@ -8,11 +8,13 @@
 2. The real stats package is hammered from 16 goroutines (increments of every total, gauge ups/downs,
    concurrent readers and rate resets; means fed with a constant value racing with resets).
 3. TLC (C17_Mon) compares the quiescent readings with the per-goroutine event counts.
-Worker gauges against live workers (zero after stop) are checked in the pipeline runs of C03.
+Worker gauges are read in real pipeline runs (1-3 workers per stage): equal to the worker count while running, zero after Stop.
 """
 import os
+import subprocess
 
 import vf
+from c01 import pipeline
 
 LEVEL = "model_checking"
 
@@ -24,7 +26,7 @@ def run(ctx):
     if not r.ok:
         print(r.out[-3000:])
         raise vf.Inconclusive("Stats model violates %s (specification error)" % r.violated)
-    ctx.build_harness()
+    ctx.build_harness(("unit-verif", "zeno-verif"))
     tpath = os.path.join(ctx.scratch, "c17.ndjson")
     if ctx.replay:
         tpath = ctx.replay
@@ -38,6 +40,23 @@ def run(ctx):
     for v in mon["viols"]:
         e = events[v["l"] - 1]
         ctx.report("%s %s" % (v["why"], {k: e[k] for k in e if k != "seq"}), replay_src=tpath, tag="trace", key=v["why"])
+    # worker gauges against live workers: pipeline runs with 1, 2 and 3 workers per stage
+    gauges = 0
+    if not ctx.replay:
+        procs = [pipeline(ctx, "g%d" % w, "c01", [6, w, 1]) for w in (1, 2, 3)]
+        for p, t, d in procs:
+            try:
+                p.communicate(timeout=600)
+            except subprocess.TimeoutExpired:
+                p.kill()
+                raise vf.Inconclusive("pipeline run timed out")
+            subprocess.run(["rm", "-rf", d])
+            gev = vf.read_ndjson(t)
+            gauges += sum(1 for e in gev if e["ev"] == "gauges")
+            gm = ctx.validate("C17_Mon", "C17_mon.cfg", t, name="gauges-" + os.path.basename(t))
+            for v in gm["viols"]:
+                e = gev[v["l"] - 1]
+                ctx.report("%s %s" % (v["why"], {k: e[k] for k in e if k not in ("seq", "us")}), replay_src=t, tag="gauges", key=v["why"])
     ops = sum(e.get("urls", 0) + e.get("seeds", 0) + sum(e.get(c, 0) for c in ("c200", "c301", "c404", "c500", "c503"))
               for e in events if e["ev"] == "burst.batch")
     ops += sum(e["adds"] + e["resets"] for e in events if e["ev"] == "mean.round")
@@ -45,7 +64,8 @@ def run(ctx):
     ctx.cov.update({
         "states": r.distinct, "transitions": r.generated, "exhaustive": True,
         "traces_validated_against_impl": 1,
-        "evaluations": ops, "distinct_nontrivial": len(reads),
+        "evaluations": ops, "distinct_nontrivial": len(reads) + gauges,
+        "gauge_readings": gauges,
         "rule": "evaluations = operations issued on the real stats package; distinct_nontrivial = quiescent readings compared by TLC (burst reads and mean rounds, incl. 6 gated add/reset schedules)",
         "samples": [reads[0], reads[-1]],
     })
